@@ -9,6 +9,7 @@ namespace Tea.Props.Bridge.C16
 
 theorem el_head : Tea.Gen.fact_el_head = Tea.Doc.fact_el_head := rfl
 theorem el_tail : Tea.Gen.fact_el_tail = Tea.Doc.fact_el_tail := rfl
+theorem el_cases : Tea.Gen.fact_el_cases = Tea.Doc.fact_el_cases := rfl
 theorem calls : Tea.Gen.fact_calls = Tea.Doc.fact_calls := rfl
 theorem sendcalls : Tea.Gen.fact_sendcalls = Tea.Doc.fact_sendcalls := rfl
 theorem body_WithFilter : Tea.Gen.fact_body_WithFilter = Tea.Doc.fact_body_WithFilter := rfl
